@@ -92,6 +92,17 @@ def r1_sticky(ctx, F, ty, rule):
               good='is_valid_history becomes true only in new()',
               bad='%s: is_valid_history is set to true outside new(): %s - an ill-formed history can become '
                   'valid again' % (short, [p for p in setters if not p.endswith('::new')]))
+    # is_consistent(): the verdict of serialized_history() on every path - the only reader of the
+    # validity flag - or `false` behind a failed flag test; never a shortcut to `true`
+    ic = tester_fn(F, ty, 'is_consistent')
+    ctx.touched(ic)
+    shc = [c.bb for c in ic.calls if c.short.endswith('::serialized_history')]
+    rejects = [e[1] for sw in flag_tests(ic) for e in sw.edges_for(False)]
+    r = ic.reach([0], cut_blocks=shc + rejects)
+    ctx.check(bool(shc) and not any(x in r for x in ic.returns), rule, 'is_consistent-consults-validity', ic,
+              good='every path of is_consistent goes through serialized_history() (or a failed validity test)',
+              bad='%s::is_consistent can return without consulting serialized_history() / is_valid_history: an '
+                  'ill-formed history (rejected with Err earlier) is reported as consistent on that path' % short)
     sh = tester_fn(F, ty, 'serialized_history')
     ctx.touched(sh)
     tests = flag_tests(sh)
